@@ -487,6 +487,70 @@ def check_no_document_files(col):
                                     observed=list(r), expected=list(want))
 
 
+# anchors across the steps of one fold: every pairwise step is the C05/C10 merge -- also the second and third step into the
+# same left-hand document, when an earlier step brought the anchor in
+ANCHOR_STREAMS = [
+    ("a: 1\n", ["b: &x one\nc: *x\n", "d: &x two\ne: *x\n"]),
+    ("a: &x one\nb: *x\n", ["c: 1\n", "d: &x two\ne: *x\n"]),
+    ("a: 1\n", ["b: &x one\nc: *x\n", "d: &x one\ne: *x\n"]),
+    ("a: 1\n", ["b: &x one\nc: *x\n", "k: 2\n", "d: &x two\ne: *x\n"]),
+]
+
+
+def _fold_fresh(texts, anchors):
+    """The fold with a FRESH Merger per step on a freshly re-loaded accumulator (no state survives a step)."""
+    from yamlpath.merger import Merger, MergerConfig
+    from yamlpath.merger.exceptions import MergeException
+    from yamlpath.exceptions import YAMLPathException
+    log = gen.QuietLog()
+    acc = gen.load(texts[0])
+    try:
+        for t in texts[1:]:
+            m = Merger(log, acc, MergerConfig(log, SimpleNamespace(anchors=anchors)))
+            m.merge_with(gen.load(t))
+            buf = io.StringIO()
+            m.prepare_for_dump(gen.editor(), "")
+            gen.editor().dump(m.data, buf)
+            acc = gen.load(buf.getvalue())
+    except (MergeException, YAMLPathException) as ex:
+        return ("error", type(ex).__name__)
+    return ("ok", plain(acc))
+
+
+def check_anchor_folds(col):
+    from yamlpath.commands import yaml_merge
+    for left, rights in ANCHOR_STREAMS:
+        for anchors in ("stop", "left", "right", "rename"):
+            for mode in ("condense_all", "matrix_merge"):
+                inp = {"check": "anchor-fold", "lhs": left, "rhs_stream": rights, "anchors": anchors, "mode": mode}
+                want = _fold_fresh([left] + rights, anchors)
+                d = _tmpdir()
+                lf, rf = os.path.join(d, "al.yaml"), os.path.join(d, "ar.yaml")
+                open(lf, "w").write(left)
+                open(rf, "w").write("".join("---\n" + t for t in rights))
+                from rtc import c16
+                r = c16.run_cli("merge", ["-S", "-D", "yaml", "-M", mode, "--anchors=" + anchors, lf, rf])
+                col.case(("anchor-fold", len(rights), anchors, mode, want[0], r["code"]))
+                if r["code"] == "EXC":
+                    col.witness("%s/anchor-fold/crash/%s" % (PROP, r["exc"]), "traceback in a fold over documents with anchors", inp,
+                                observed=r["exc"], expected=list(want))
+                elif want[0] == "error":
+                    if r["code"] == 0:
+                        col.witness("%s/anchor-fold/conflict-not-refused-in-a-later-step/%s" % (PROP, anchors),
+                                    "a fresh step-by-step fold refuses (anchor conflict), the driver's fold goes through", inp,
+                                    observed={"exit": 0, "out": r["out"][:200]}, expected=list(want))
+                else:
+                    try:
+                        got = [plain(x) for x in gen.editor().load_all(r["out"])] if r["code"] == 0 else None
+                    except Exception as ex:
+                        got = "unloadable output: %s" % type(ex).__name__
+                    if got != [want[1]]:
+                        col.witness("%s/anchor-fold/result-differs-from-step-by-step-fold/%s" % (PROP, anchors),
+                                    "folding several documents into one left-hand document gives another result than merging them one "
+                                    "by one with fresh state", inp, observed={"exit": r["code"], "docs": c05._jsonable(got), "err": r["err"][-200:]},
+                                    expected=c05._jsonable([want[1]]))
+
+
 def run(tier="quick", seed=0, jobs=None):
     rng = random.Random(seed)
     two = variant_streams(("map", "empty"))
@@ -521,6 +585,7 @@ def run(tier="quick", seed=0, jobs=None):
                 cpu += r["cpu_s"]
             info.append({"stage": name, "stream_pairs": len(items), "cases": col.evaluations - before, "cpu_s": round(cpu, 1)})
         check_no_document_files(col)
+        check_anchor_folds(col)
     finally:
         _cleanup()
     bounds = {
@@ -544,6 +609,11 @@ def run(tier="quick", seed=0, jobs=None):
 
 def replay(inp):
     try:
+        if inp.get("check") == "anchor-fold":
+            col = Collector()
+            check_anchor_folds(col)
+            ws = [w for w in col.witnesses.values() if w["inputs"] and w["inputs"][0].get("anchors") == inp.get("anchors")]
+            return ws[0] if ws else None
         if inp.get("check") == "no-document-file":
             r = run_main_texts(inp["texts"], inp["mode"])
             if r[0] == "crash":
